@@ -4,7 +4,7 @@
 # every check must still exit 0 (false-alarm probe).  /repo is not touched.
 set -u
 HERE="$(cd "$(dirname "$0")" && pwd)"
-NAME=$1; SRC=$2; shift 2
+NAME=$1; SRC=$(realpath $2); shift 2
 WT=/tmp/seed/harmless_wt_$NAME
 SCR=/tmp/seed/harmless_scratch_$NAME
 rm -rf $SCR; mkdir -p $SCR/evidence $SCR/replays
